@@ -16,7 +16,17 @@ ALLOWED_AXIOMS = {"propext", "Classical.choice", "Quot.sound"}
 FORBIDDEN = re.compile(r"\bsorry\b|\badmit\b|^axiom |native_decide|bv_decide|implemented_by|\bunsafe |maxHeartbeats 0", re.M)
 
 # property -> theorems (fully qualified) that are its proof obligations, with the module they live in
+_PT = "XonshVerif.Proofs.Tokenize"
+_PR = "XonshVerif.Proofs.Regex"
 THEOREMS = {
+    "C03": [
+        ("XV.Tz.tokenize_total", "XonshVerif.Properties.C03"),
+        ("XV.Tz.scanLine_no_loopFuel", _PT),
+        ("XV.Tz.tokenizeLines_no_loopFuel", _PT),
+        ("XV.Rx.matchAt_gt", _PR),
+        ("XV.Rx.matchAt_ge", _PR),
+        ("XV.Rx.matchAt_le_size", _PR),
+    ],
     "C06": [
         ("XV.procArgs_groups", "XonshVerif.Properties.C06"),
         ("XV.runs_flatten", "XonshVerif.Properties.C06"),
@@ -105,10 +115,16 @@ def _cert_names():
 
 
 _B = "XonshCerts.Basic"
+_R = "XonshCerts.Regex"
+_RX_PROGRESS = [("XVC.regex_translation_complete", _R), ("XVC.pseudo_branches_progress", _R), ("XVC.pseudo_branch_names", _R), ("XVC.string_patterns_progress", _R), ("XVC.quotes_covered", _R)]
 CERTS = {
+    "C08": _RX_PROGRESS,
+    "C09": _RX_PROGRESS + [("XVC.longest_operator_first", _R), ("XVC.tabsize_is_8", _R)],
+    "C10": _RX_PROGRESS,
+    "C14": _RX_PROGRESS,
     "C01": [("XVC.ir_complete", _B)],
     "C02": [("XVC.ir_complete", _B), ("XVC.errortoken_unmatched", _B), ("XVC.start_demands_endmarker", _B)],
-    "C03": [("XVC.ir_complete", _B)],
+    "C03": [("XVC.ir_complete", _B)] + _RX_PROGRESS + [("XVC.gen_pseudo_progress", _R), ("XVC.shipped_tokenizer_total", _R)],
     "C06": [("XVC.bracket_method_table", _B)],
     "C18": [("XVC.ir_complete", _B)],
 }
@@ -136,8 +152,7 @@ def obligations(rep, pid, tier):
             rep.obligation(f"theorem {name} [axioms: {', '.join(ax) or 'none'}]", True)
     for u in UNPROVED.get(pid, []):
         rep.unproved.append(u)
-    fn = CORR.get(pid)
-    if fn:
+    for fn in CORR.get(pid, []):
         fn(rep, tier)
     if tier == "thorough":
         leanchecker(rep, pid)
@@ -202,4 +217,39 @@ def corr_peg(pid, n_quick=250, n_thorough=6000, **kw):
     return run
 
 
-CORR = {"C06": corr_c06, "C01": corr_peg("C01", xonsh=False), "C02": corr_peg("C02"), "C03": corr_peg("C03"), "C18": corr_peg("C18")}
+def corr_tok(pid):
+    def run(rep, tier):
+        from harness import corr
+        from harness.props import c08
+
+        srcs = [s for _, s in c08.build_inputs(tier) if len(s) < (20000 if tier == "quick" else 200000)]
+        if pid == "C10":
+            from harness.props import c10
+
+            srcs = [s for _, s, _m in c10.build_inputs(tier)] + srcs[:800]
+        elif pid == "C09":
+            from harness.props import c09
+
+            srcs = [s for _, s in c09.build_inputs(tier) if len(s) < 20000] + srcs[:800]
+        elif pid == "C03":
+            from harness.props import c03
+
+            srcs = [s for _, s, _m in c03.build_inputs(tier)][:4000] + srcs[:500]
+        bad = corr.run_tok_correspondence(rep, corr.tok_cases(srcs))
+        for b in bad[:3]:
+            rep.extra.setdefault("correspondence_disagreements", []).append(b)
+
+    return run
+
+
+CORR = {
+    "C06": [corr_c06],
+    "C01": [corr_peg("C01", xonsh=False)],
+    "C02": [corr_peg("C02")],
+    "C03": [corr_peg("C03"), corr_tok("C03")],
+    "C18": [corr_peg("C18")],
+    "C08": [corr_tok("C08")],
+    "C09": [corr_tok("C09")],
+    "C10": [corr_tok("C10")],
+    "C14": [corr_tok("C14")],
+}
